@@ -247,7 +247,9 @@ def run(ctx):
         sess = bk.gc_sessions(cfg)
         cases = []
         for i, b in enumerate(beh):
-            bd = ({"archive": i % 2, "nojournal": i % 3 == 2, "incremental": (0 if i % 4 else 2048)} if mode == "vs"
+            # (no incremental table files here: they join the old generation's manifest while the mark runs, which the
+            # model's AddOldGenFiles does not describe; the repository histories and the hazards use them)
+            bd = ({"archive": i % 2, "nojournal": i % 3 == 2} if mode == "vs"
                   else {"filler": [0, 300, 1500][i % 3], "pregc": i % 2 == 1})
             cases.append({"steps": b, "sessions": sess, "binding": bd, "mode": mode, "key": [cfg, bd]})
         ctx.log("%s: %d schedules" % (cfg, len(cases)))
